@@ -30,10 +30,15 @@ fn facts(d: &RecordDefinition<NativeDatumDetails>) -> Value {
 }
 
 fn emit(out: &PathBuf, name: &str, d: &RecordDefinition<NativeDatumDetails>, extra: Value) {
-    let cfg = GeneratorConfig::default_with_custom_generators(vec![
-        Box::new(CloneImplGenerator) as Box<dyn FragmentGenerator>,
-        Box::new(SerdeImplGenerator),
-    ]);
+    // the C14-only definition holds types that are neither Clone nor serde-able
+    let cfg = if name == "threads" {
+        GeneratorConfig::default()
+    } else {
+        GeneratorConfig::default_with_custom_generators(vec![
+            Box::new(CloneImplGenerator) as Box<dyn FragmentGenerator>,
+            Box::new(SerdeImplGenerator),
+        ])
+    };
     let code = generate(d, &cfg);
     fs::write(out.join(format!("{}.rs", name)), code).unwrap();
     let mut f = facts(d);
